@@ -332,6 +332,46 @@ def assign_values(which: int, v: int, w: int) -> bool:
     return (ok and t['keep'] is keep and t['src']['n'] == v) or fail(why='value kind', which=which, t=t)
 
 
+def assign_s_rooted(present: int, style: int, use_missing: bool, v: int, w: int) -> bool:
+    """S-rooted destinations: S['acc']['a']['b'] with 0-2 of the intermediate containers present, with and without missing=;
+    the Assign step returns its target, the scope variable gets plain nested assignment, nothing else in the scope changes"""
+    start()
+    present, style = concretize(present, 0, 2), concretize(style, 0, 1)
+    if present is OUT or style is OUT:
+        return True
+    acc = {}
+    if present >= 1:
+        acc['a'] = {'keep': w}
+    if present >= 2:
+        acc['a']['b'] = w
+    exp_acc = copy.deepcopy(acc)
+    ok_expected = present >= 1 or use_missing
+    if ok_expected:
+        exp_acc.setdefault('a', {})['b'] = v
+    dest = S['acc']['a']['b'] if style == 0 else Path(S['acc'], 'a', 'b')
+    t = {'x': w}
+    seen = {}
+
+    def grab(tt):
+        seen['t'] = tt
+        return tt
+    spec = (S(acc=Val(acc)), Assign(dest, v, missing=dict if use_missing else None), grab,
+            {'acc': S['acc'], 'stray': Coalesce(S['b'], default='absent')})
+    got = run(lambda: glom(t, spec, glom_debug=True))
+    reach('s_rooted')
+    if not ok_expected:
+        return got.kind == 'err' or fail(why='missing intermediate without missing= must fail', got=got)
+    if got.kind != 'ok':
+        return fail(why='S-rooted assignment failed', got=got)
+    if seen.get('t') is not t:
+        return fail(why='the Assign step must return its target', seen=seen)
+    if got.value['acc'] != exp_acc:
+        return fail(why='scope variable differs from plain nested assignment', got=got.value['acc'], exp=exp_acc)
+    if got.value['stray'] != 'absent':
+        return fail(why='the assignment leaked a stray name into the scope', stray=got.value['stray'])
+    return t == {'x': w} or fail(why='target touched', t=t)
+
+
 def assign_fn(which: int, xs: List[int], v: int) -> bool:
     """assign() wrapper, Assign as a step inside a larger spec, attribute targets"""
     start()
@@ -396,6 +436,7 @@ def obligations(tier):
         obs.append(Ob(assign_reuse, fixed={'k1': k1}, pre='0 <= k2 <= 3 and 0 <= seg <= 1 and 0 <= style <= 1', name='assign_reuse_%d' % k1))
         obs.append(Ob(assign_wild_mixed, fixed={'k0': k1}, pre='0 <= k1 <= 3 and 0 <= k2 <= 3 and 0 <= seg <= 1', name='assign_wild_mixed_%d' % k1))
     obs.append(Ob(assign_wild3, pre='0 <= shape <= 1', name='assign_wild3'))
+    obs.append(Ob(assign_s_rooted, pre='0 <= present <= 2 and 0 <= style <= 1', name='assign_s_rooted'))
     obs.append(Ob(assign_fn, pre='0 <= which <= 3 and len(xs) <= 2', name='assign_fn'))
     # twins
     tp = '0 <= c0 < 5 and 0 <= c1 < 5 and 0 <= mkind <= 3'
